@@ -141,11 +141,18 @@ func DropRegs(t *rapid.T, cfg *Config, pct int) []int {
 
 // CloneConfig deep-copies a configuration.
 func CloneConfig(c *Config) *Config {
-	o := &Config{Regs: make([]Reg, len(c.Regs))}
+	o := &Config{Regs: make([]Reg, len(c.Regs)), PreBuild: c.PreBuild}
 	for i, r := range c.Regs {
 		r.Outs = append([]OutSpec(nil), r.Outs...)
 		r.Deps = append([]DepSpec(nil), r.Deps...)
 		r.As = append([]int(nil), r.As...)
+		if r.Dropped != nil {
+			d := map[int]bool{}
+			for k, v := range r.Dropped {
+				d[k] = v
+			}
+			r.Dropped = d
+		}
 		o.Regs[i] = r
 	}
 	return o
@@ -155,7 +162,7 @@ func CloneConfig(c *Config) *Config {
 func depOn(t *rapid.T, r *Reg) (DepSpec, bool) {
 	var ps []Provided
 	for _, p := range r.Provides() {
-		if p.Out < len(r.Outs) && r.Outs[p.Out].Nil {
+		if (p.Out < len(r.Outs) && r.Outs[p.Out].Nil) || p.Ident.T == TVoid {
 			continue
 		}
 		ps = append(ps, p)
